@@ -163,6 +163,19 @@ func runPeek(rc *RunCtx) *Violation {
 			Detail: fmt.Sprintf("%s: %s; tokens(elided=e)=%s elide=%v", op, detail, flags, elideList),
 			Input:  string(flags)}
 	}
+	if len(elideList) > 0 && simrt.Choose(4) == 1 {
+		// a caller that reuses one buffer for its elide lists: an earlier Upgrade with other contents
+		// in the very same slice must leave no trace
+		buf := make([]lexer.TokenType, len(elideList))
+		for i := range buf {
+			buf[i] = peekTypes[(i+1+simrt.Choose(3))%4]
+		}
+		first := &sliceLexer{toks: []lexer.Token{{Type: peekTypes[0], Value: "a"}, lexer.EOFToken(lexer.Position{})}, failAt: -1}
+		catch(func() { lexer.Upgrade(first, buf...) })
+		copy(buf, elideList)
+		elideList = buf
+		rc.probe("elide buffer reused from an earlier Upgrade with other contents")
+	}
 	var pl *lexer.PeekingLexer
 	var uerr error
 	if p := catch(func() { pl, uerr = lexer.Upgrade(src, elideList...) }); p != "" {
@@ -411,6 +424,10 @@ func catch(f func()) (p string) {
 		if r := recover(); r != nil {
 			if ce, ok := r.(simrt.CapExceeded); ok {
 				p = fmt.Sprintf("step cap exceeded after %d steps", ce.Steps)
+				return
+			}
+			if dl, ok := r.(simrt.Deadlock); ok {
+				p = "deadlock: blocked on a mutex nobody can release any more, at " + dl.At
 				return
 			}
 			p = panicString(r)
